@@ -401,10 +401,12 @@ func (e *Engine) trimLeft(s, cut *Term) *Term {
 			none = append(none, Not(StrPrefixOf(ch, s)))
 		}
 		e.axiomQ(Implies(And(none...), Eq(r, s)))
-		if len(cut.SVal) == 1 {
-			// what was cut consists of the cut character only: r == s minus leading run
-			e.axiomQ(Implies(Not(StrContains(s, cut)), Eq(r, s)))
+		// what was cut consists of cut characters only
+		cutPart := StrSubstr(s, IntT(0), Sub(StrLen(s), StrLen(r)))
+		for i := 0; i < len(cut.SVal); i++ {
+			cutPart = StrReplaceAll(cutPart, StrT(cut.SVal[i:i+1]), StrT(""))
 		}
+		e.axiomQ(Eq(cutPart, StrT("")))
 	}
 	e.note("axiom:TrimLeft (suffix of input, no leading cut char, identity when nothing to cut)")
 	return r
@@ -424,6 +426,11 @@ func (e *Engine) trimRight(s, cut *Term) *Term {
 			none = append(none, Not(StrSuffixOf(ch, s)))
 		}
 		e.axiomQ(Implies(And(none...), Eq(r, s)))
+		cutPart := StrSubstr(s, StrLen(r), Sub(StrLen(s), StrLen(r)))
+		for i := 0; i < len(cut.SVal); i++ {
+			cutPart = StrReplaceAll(cutPart, StrT(cut.SVal[i:i+1]), StrT(""))
+		}
+		e.axiomQ(Eq(cutPart, StrT("")))
 	}
 	e.note("axiom:TrimRight (prefix of input, no trailing cut char, identity when nothing to cut)")
 	return r
@@ -436,8 +443,21 @@ func (e *Engine) pathClean(p *Term) *Term {
 	if p.Op == "uf:pathClean" {
 		return p // idempotent
 	}
+	if p.Op == "ite" {
+		return Ite(p.Args[0], e.pathClean(p.Args[1]), e.pathClean(p.Args[2]))
+	}
+	// leading runs of slashes collapse
+	if p.Op == "str.++" && p.Args[0].Op == "str" && strings.HasPrefix(p.Args[0].SVal, "//") {
+		rest := strings.TrimLeft(p.Args[0].SVal, "/")
+		return e.pathClean(Concat(append([]*Term{StrT("/" + rest)}, p.Args[1:]...)...))
+	}
 	r := uf("pathClean", StringS, p)
 	sl := StrT("/")
+	if p.Op == "str.++" && p.Args[0].Op == "str" && p.Args[0].SVal == "/" {
+		// Clean("/" + x) == Clean(x) when x is itself rooted (duplicate slash)
+		x := Concat(p.Args[1:]...)
+		e.axiomQ(Implies(StrPrefixOf(sl, x), Eq(r, e.pathCleanNoAx(x))))
+	}
 	e.axiomQ(Neq(r, StrT("")))
 	e.axiomQ(Or(Eq(r, sl), Not(StrSuffixOf(sl, r))))
 	e.axiomQ(Not(StrContains(r, StrT("//"))))
@@ -446,6 +466,9 @@ func (e *Engine) pathClean(p *Term) *Term {
 	e.axiomQ(Implies(StrPrefixOf(sl, p), And(Not(StrContains(r, StrT("/../"))), Not(StrSuffixOf(StrT("/.."), r)))))
 	e.axiomQ(Implies(Eq(p, StrT("")), Eq(r, StrT("."))))
 	e.axiomQ(Eq(uf("pathClean", StringS, r), r))
+	e.axiomQ(Eq(uf("pathClean", StringS, sl), sl))
+	e.axiomQ(Eq(uf("pathClean", StringS, StrT(".")), StrT(".")))
+	e.axiomQ(Implies(Eq(p, sl), Eq(r, sl)))
 	e.note("axiom:filepath.Clean (non-empty, no trailing slash unless root, no //, no /./, rooted iff input rooted, no .. when rooted, idempotent)")
 	return r
 }
